@@ -137,6 +137,16 @@ def parse_rvalue(s):
     if 'ReifyFnPointer' in s and not s.startswith(('copy ', 'move ', 'const ')):
         m = re.match(r'^(.+?) as (?:for<[^>]*> )?(?:unsafe )?fn\(', s)
         if m: return ('fnptr', m.group(1))
+    if s.startswith(('copy (', 'move (')):
+        # operand whose place is parenthesised (may contain blanks inside type annotations): find its extent first
+        j = find_matching(s, 5)
+        k = j + 1
+        while k < len(s) and s[k] == '[':
+            k = find_matching(s, k) + 1
+        rest = s[k:]
+        mm = re.match(r'^ as (.+) \((\w+(?:\(.*\))?(?:, \w+)?)\)$', rest)
+        if mm: return ('cast', parse_operand(s[:k]), mm.group(1), mm.group(2))
+        if not rest.strip(): return ('use', parse_operand(s[:k]))
     if s.startswith(('copy ', 'move ', 'const ')):
         # maybe a cast:  OP as T (Kind)
         m = re.match(r'^((?:copy|move) \S+|const .+?) as (.+) \((\w+(?:\(.*\))?(?:, \w+)?)\)$', s)
